@@ -69,6 +69,20 @@ fn ref_v6_must_allow(o: [u8; 16]) -> bool {
         && !(s0 == 0x3fff && (s1 & 0xf000) == 0) // 3fff::/20 documentation
 }
 
+pub(crate) fn ref_must_refuse(ip: &IpAddr) -> bool {
+    match ip {
+        IpAddr::V4(a) => ref_v4_must_refuse(a.octets()),
+        IpAddr::V6(a) => ref_v6_must_refuse(a.octets()),
+    }
+}
+
+pub(crate) fn ref_must_allow(ip: &IpAddr) -> bool {
+    match ip {
+        IpAddr::V4(a) => ref_v4_must_allow(a.octets()),
+        IpAddr::V6(a) => ref_v6_must_allow(a.octets()),
+    }
+}
+
 // @harness tier=quick core=yes bound="all 2^32 IPv4 addresses"
 // @desc is_global_ipv4 refuses every must-refuse address and accepts every plainly global address
 // @encodes net_utils::is_global_ipv4
